@@ -217,6 +217,17 @@ fn main() {
             }
         }
     }
+    // sweeps just below half a turn and just below a full turn (the half planes are still intersected / united although
+    // the truncated border directions are already opposite / equal), start angles on the axes, the diagonals and between
+    for &dia in &[9u32, 21, 40] {
+        for a in (0..360).step_by(15) {
+            for (k, swm) in [179_980, 179_950, 179_999, -179_980, -179_960, 180_020, -180_030, 359_980, -359_990].iter().enumerate() {
+                let kind = if (a / 15 + k) % 2 == 0 { "sector" } else { "arc" };
+                let sw16 = (*swm as i64 * 16 / 1000) as i32; // towards zero
+                run_case(&mut rec, &json!({"t":"ang","shape":{"k":kind,"tl":[-5, 4],"d":dia,"a0":(a as i32 - 180) * 16,"sw":sw16,"swm":swm}}));
+            }
+        }
+    }
     // full sweeps (exactly +-360 degrees and a little more) from start angles well outside 0..360, larger diameters:
     // the >= 360 decision is made in floating point
     {
